@@ -1,14 +1,19 @@
 import EmsModel.Core.MeshDataset
 import EmsModel.Lemmas.Mesh
 import EmsModel.Lemmas.MeshTopo
+import EmsModel.Lemmas.MeshFollow
 /-!
 # C10 — UGRID mesh topology is independent of encoding and internally consistent
 
 Property theorems only (helper lemmas: `Lemmas/Mesh.lean`, `Lemmas/MeshTopo.lean`).
 All statements are for meshes of any size; node, edge and face indexes are unbounded integers.
-Edge *numbering* of derived tables is left free by the property: every statement about a
-derived table is relative to the edge table in use (`en`), whatever its order, and
-`edges_spec` holds for every renumbering the model accepts.
+Edge *numbering* of derived tables is left free by the property where the dataset numbers no
+edges: every statement about a derived table is relative to the edge table in use (`en`),
+whatever its order, and `edges_spec` holds for every renumbering the model accepts.  Where the
+dataset supplies a table that numbers the edges (`face_edge` or `edge_face`) and `edge_node` is
+derived, "supplied tables are used as given" and "every derived table agrees with the
+face-node table" together pin the numbering: the derived `edge_node` table follows the supplied
+one (`edge_node_follows_face_edge`, `edge_node_follows_edge_face`, `derived_numbering_consistent`).
 -/
 namespace Ems.C10
 
@@ -400,6 +405,317 @@ theorem topology_all_derived (t : TopoIn) (faces : List (List Int))
   intro ef hef'
   simp [TopoIn.faceFaceArray, h4, hfv, hef, hef']
 
+/-! ## a derived edge table keeps the edge numbering of a supplied table
+
+`Mesh2DTopology.edge_node_array` as it is now (repairs `87d11e3`, `3f3bd50`):
+`TopoIn.edgeNodeArrayN`.  A dataset that stores `face_edge_connectivity` or
+`edge_face_connectivity` but no `edge_node_connectivity` has numbered its edges; the derived
+edge-node table must use that numbering, or "supplied tables are used as given" and "every
+derived table agrees with the face-node table" cannot both hold. -/
+
+/-- **edge_node_follows_face_edge.**  If the supplied face-edge table describes the faces
+(`faceEdgeDescribes`, decidable: every side of every face has an entry that is a row of the
+edge table, and two sides have the same entry exactly when they are the same undirected node
+pair), then the derived edge-node table
+* is a renumbering of the mesh's own edges (so `TopoIn.derivedEdges` accepts it and every
+  theorem above about the edge table in use applies to it), stored (low, high), and
+* for every face `fi` and side `c`, row `face_edge[fi][c]` of it is the `c`-th consecutive
+  node pair of `fi`, as an unordered pair. -/
+theorem edge_node_follows_face_edge (faces : List (List Int)) (fe : Table)
+    (hd : faceEdgeDescribes faces fe = true) :
+    ∃ en : List Pair,
+      makeEdgeNodeFollowingFaceEdge faces fe = .ok (en.map pairRow) ∧
+      isRenumbering en (makeEdgeNode faces) = true ∧
+      TopoIn.derivedEdges (some en) faces = en ∧
+      (∀ e ∈ en, e.1 ≤ e.2) ∧
+      ∀ (fi : Nat) (hfi : fi < faces.length) (c : Nat) (hc : c < (facePairs faces[fi]).length),
+        ∃ (v : Int) (k : Nat), cellOf fe fi c = some (some v) ∧
+          numpyIndex (makeEdgeNode faces).length v = some k ∧ (0 ≤ v → v = (k : Int)) ∧
+          (en.map pairRow)[k]? = some (pairRow (normPair (facePairs faces[fi])[c])) := by
+  obtain ⟨en, htab, hren, _, hsorted, hfollow⟩ := followFaceEdge_spec hd
+  refine ⟨en, htab, hren, derivedEdges_of_isRenumbering hren, hsorted, ?_⟩
+  intro fi hfi c hc
+  obtain ⟨k, ht, hk⟩ := hfollow fi c _ (isSide_of_lt hfi hc)
+  obtain ⟨v, hv, hidx⟩ := writeTarget_some ht
+  exact ⟨v, k, hv, hidx, fun h0 => numpyIndex_of_nonneg hidx h0, by simp [hk]⟩
+
+/-- **edge_node_follows_edge_face.**  If the supplied edge-face table describes the sides
+(`edgeFaceDescribes`, decidable: as many rows as the mesh has sides, and every row in turn
+finds a side, not taken by an earlier row, that borders exactly the faces the row lists —
+`edge_face_describes_iff` gives the order-free form), then the derived edge-node table
+* is a renumbering of the mesh's own edges, stored (low, high), with one row per row of the
+  supplied table, and
+* for every edge `k`, the faces listed in row `k` of the supplied edge-face table are exactly
+  the faces that have the derived edge `k` among their consecutive node pairs (and every
+  entry of the row is a face of the mesh). -/
+theorem edge_node_follows_edge_face (faces : List (List Int)) (ef : Table)
+    (hd : edgeFaceDescribes faces ef = true) :
+    ∃ en : List Pair,
+      makeEdgeNodeFollowingEdgeFace faces ef = some (en.map pairRow) ∧
+      isRenumbering en (makeEdgeNode faces) = true ∧
+      TopoIn.derivedEdges (some en) faces = en ∧
+      (∀ e ∈ en, e.1 ≤ e.2) ∧
+      en.length = ef.length ∧
+      ∀ (k : Nat) (hk : k < en.length),
+        (∀ x ∈ rowOf ef k, ∃ i : Nat, i < faces.length ∧ x = (i : Int)) ∧
+        ∀ (i : Nat) (hi : i < faces.length),
+          (i : Int) ∈ rowOf ef k ↔ ∃ p ∈ facePairs faces[i], normPair p = normPair en[k] := by
+  obtain ⟨en, htab, hren, hlen, hsorted, hrows⟩ := followEdgeFace_spec hd
+  have hef : ef.length = (makeEdgeNode faces).length := (edgeFaceDescribes_iff.mp hd).1
+  refine ⟨en, htab, hren, derivedEdges_of_isRenumbering hren, hsorted, by omega, ?_⟩
+  intro k hk
+  have hk2 : k < ef.length := by omega
+  have hrow := hrows k en[k] ef[k] (List.getElem?_eq_getElem hk) (List.getElem?_eq_getElem hk2)
+  have hrowOf : rowOf ef k = compress ef[k] := by simp [rowOf, List.getElem?_eq_getElem hk2]
+  rw [hrowOf]
+  refine ⟨?_, ?_⟩
+  · intro x hx
+    obtain ⟨i, f, hf, rfl, _⟩ := mem_sideFaces.mp ((hrow x).mp hx)
+    exact ⟨i, (List.getElem?_eq_some_iff.mp hf).1, rfl⟩
+  · intro i hi
+    rw [hrow, mem_sideFaces]
+    constructor
+    · rintro ⟨j, f, hf, hij, p, hp, hpe⟩
+      have : i = j := by omega
+      subst this
+      obtain ⟨_, rfl⟩ := List.getElem?_eq_some_iff.mp hf
+      exact ⟨p, hp, hpe⟩
+    · rintro ⟨p, hp, hpe⟩
+      exact ⟨i, faces[i], List.getElem?_eq_getElem hi, rfl, p, hp, hpe⟩
+
+/-- the order-free form of "the edge-face table describes the sides": as many rows as sides,
+and no set of faces is listed by more rows than there are sides bordering exactly those faces -/
+theorem edge_face_describes_iff (faces : List (List Int)) (ef : Table) :
+    edgeFaceDescribes faces ef = true ↔
+      ef.length = (makeEdgeNode faces).length ∧
+      ∀ K : List Int, (ef.map compress).countP (fun k => sameFaces k K) ≤
+        (makeEdgeNode faces).countP (fun e => sameFaces (sideFaces faces e) K) :=
+  edgeFaceDescribes_iff
+
+/-- **order of precedence** of `edge_node_array`: a supplied valid edge-node table is returned
+as given; else a supplied valid face-edge table is followed, whether or not an edge-face table
+is supplied too; else a supplied valid edge-face table is followed — if it does not describe
+the sides the own numbering is returned; else the own numbering.  Without a supplied
+face-edge or edge-face table nothing changed. -/
+theorem edge_node_array_precedence (t : TopoIn) :
+    (∀ tab, t.hasEdgeDim = true → t.edgeNode = some tab → t.edgeNodeArrayN = tab) ∧
+    (∀ faces fe, t.hasEdgeDim = true → t.edgeNode = none → t.faces = .ok faces →
+        t.faceEdge = some (.ok fe) → t.edgeNodeArrayN = makeEdgeNodeFollowingFaceEdge faces fe) ∧
+    (∀ faces ef tab, t.hasEdgeDim = true → t.edgeNode = none → t.faces = .ok faces →
+        t.faceEdge = none → t.edgeFace = some (.ok ef) →
+        makeEdgeNodeFollowingEdgeFace faces ef = some tab → t.edgeNodeArrayN = .ok tab) ∧
+    (∀ faces ef, t.hasEdgeDim = true → t.edgeNode = none → t.faces = .ok faces →
+        t.faceEdge = none → t.edgeFace = some (.ok ef) →
+        makeEdgeNodeFollowingEdgeFace faces ef = none →
+        t.edgeNodeArrayN = .ok ((TopoIn.derivedEdges t.numbering faces).map pairRow)) ∧
+    (t.faceEdge = none → t.edgeFace = none →
+        t.edgeNodeArrayN = t.edgeNodeArray ∧ t.faceEdgeArrayN = t.faceEdgeArray) := by
+  refine ⟨?_, ?_, ?_, ?_, ?_⟩
+  · intro tab he h; simp [TopoIn.edgeNodeArrayN, he, h]
+  · intro faces fe he h hf hfe; simp [TopoIn.edgeNodeArrayN, TopoIn.derivedEdgeTable, he, h, hf, hfe]
+  · intro faces ef tab he h hf hfe hef htab
+    simp [TopoIn.edgeNodeArrayN, TopoIn.derivedEdgeTable, he, h, hf, hfe, hef, htab]
+  · intro faces ef he h hf hfe hef htab
+    simp [TopoIn.edgeNodeArrayN, TopoIn.derivedEdgeTable, he, h, hf, hfe, hef, htab]
+  · intro hfe hef
+    have hen : t.edgeNodeArrayN = t.edgeNodeArray := by
+      simp only [TopoIn.edgeNodeArrayN, TopoIn.edgeNodeArray, TopoIn.derivedEdgeTable, hfe, hef]
+    refine ⟨hen, ?_⟩
+    simp only [TopoIn.faceEdgeArrayN, TopoIn.faceEdgeArray, hen]
+
+/-- **fall-back of the face-edge block (there is none in the code)**: the derivation raises
+IndexError exactly when some side of some face has no usable entry — the entry is outside
+the supplied table, masked, or not a row of the edge table (beyond the number of edges of the
+mesh in either direction; a negative entry counts from the end, as numpy indexes do). -/
+theorem follow_face_edge_raises_iff (faces : List (List Int)) (fe : Table) :
+    (makeEdgeNodeFollowingFaceEdge faces fe = .error .index ↔
+      ∃ (fi : Nat) (hfi : fi < faces.length) (c : Nat) (_ : c < (facePairs faces[fi]).length),
+        cellOf fe fi c = none ∨ cellOf fe fi c = some none ∨
+          ∃ v, cellOf fe fi c = some (some v) ∧
+            (v < -((makeEdgeNode faces).length : Int) ∨ ((makeEdgeNode faces).length : Int) ≤ v)) ∧
+    (∀ e, makeEdgeNodeFollowingFaceEdge faces fe = .error e → e = .index) := by
+  refine ⟨?_, ?_⟩
+  · rw [followFaceEdge_error_iff]
+    constructor
+    · rintro ⟨fi, c, p, hs, ht⟩
+      obtain ⟨hfi, hc, _⟩ := isSide_lt hs
+      exact ⟨fi, hfi, c, hc, writeTarget_none.mp ht⟩
+    · rintro ⟨fi, hfi, c, hc, h⟩
+      exact ⟨fi, c, _, isSide_of_lt hfi hc, writeTarget_none.mpr h⟩
+  · intro e h
+    simp only [makeEdgeNodeFollowingFaceEdge] at h
+    split at h
+    · exact (Except.error.inj h).symm
+    · simp at h
+
+/-- when the derivation returns a table that table has one row per edge of the mesh; a row is
+the node pair (low, high) of a side whose face-edge entry names that row — the last such side
+in face / column order where a supplied table gives several node pairs the same number — or
+stays masked where no entry names it.  (So a face-edge table that numbers two different node
+pairs alike yields a table with a masked row; nothing is reported.) -/
+theorem follow_face_edge_rows (faces : List (List Int)) (fe tab : Table)
+    (h : makeEdgeNodeFollowingFaceEdge faces fe = .ok tab) :
+    tab.length = (makeEdgeNode faces).length ∧
+    ∀ k row, tab[k]? = some row →
+      (row = maskedRow ∧ ∀ (fi : Nat) (hfi : fi < faces.length) (c : Nat) (_ : c < (facePairs faces[fi]).length),
+          writeTarget (makeEdgeNode faces).length fe fi c ≠ some k) ∨
+      (∃ (fi : Nat) (hfi : fi < faces.length) (c : Nat) (hc : c < (facePairs faces[fi]).length),
+          writeTarget (makeEdgeNode faces).length fe fi c = some k ∧
+          row = pairRow (normPair (facePairs faces[fi])[c])) := by
+  obtain ⟨hlen, hrows⟩ := followFaceEdge_rows h
+  refine ⟨hlen, ?_⟩
+  intro k row hrow
+  rcases hrows k row hrow with ⟨hm, hno⟩ | ⟨fi, c, p, hs, ht, hp⟩
+  · left
+    exact ⟨hm, fun fi hfi c hc => hno fi c _ (isSide_of_lt hfi hc)⟩
+  · right
+    obtain ⟨hfi, hc, rfl⟩ := isSide_lt hs
+    exact ⟨fi, hfi, c, hc, ht, hp⟩
+
+/-- **fall-back of the edge-face block**: the supplied table is not followed — the code catches
+the IndexError and returns its own numbering — exactly when some set of faces is listed by
+more rows than there are sides bordering exactly those faces; in particular when the table
+has more rows than the mesh has sides, or lists a set of faces no side borders. -/
+theorem follow_edge_face_falls_back_iff (faces : List (List Int)) (ef : Table) :
+    (makeEdgeNodeFollowingEdgeFace faces ef = none ↔
+      ∃ K : List Int, (makeEdgeNode faces).countP (fun e => sameFaces (sideFaces faces e) K) <
+        (ef.map compress).countP (fun k => sameFaces k K)) ∧
+    ((makeEdgeNode faces).length < ef.length → makeEdgeNodeFollowingEdgeFace faces ef = none) := by
+  refine ⟨?_, followEdgeFace_too_many_rows⟩
+  have h := matchEdgeFace_isSome_iff (faces := faces) (keys := ef.map compress) (unused := makeEdgeNode faces)
+  simp only [makeEdgeNodeFollowingEdgeFace, Option.map_eq_none_iff]
+  constructor
+  · intro hn
+    apply Classical.byContradiction
+    intro hno
+    have : (matchEdgeFace faces (makeEdgeNode faces) (ef.map compress)).isSome = true := by
+      rw [h]
+      intro K
+      apply Classical.byContradiction
+      intro hK
+      exact hno ⟨K, by omega⟩
+    simp [hn] at this
+  · rintro ⟨K, hK⟩
+    cases hm : matchEdgeFace faces (makeEdgeNode faces) (ef.map compress) with
+    | none => rfl
+    | some w =>
+      have := h.mp (by simp [hm]) K
+      omega
+
+/-- a table with fewer rows than the mesh has sides, each finding its side: those rows are
+assigned, the remaining rows of the derived table stay masked (nothing is reported) -/
+theorem follow_edge_face_fewer_rows (faces : List (List Int)) (ef tab : Table)
+    (h : makeEdgeNodeFollowingEdgeFace faces ef = some tab) :
+    tab.length = (makeEdgeNode faces).length ∧ ef.length ≤ (makeEdgeNode faces).length ∧
+    (∀ k, k < ef.length → ∃ e ∈ makeEdgeNode faces, tab[k]? = some (pairRow e)) ∧
+    (∀ k, ef.length ≤ k → k < (makeEdgeNode faces).length → tab[k]? = some maskedRow) :=
+  followEdgeFace_fewer_rows h
+
+/-- **derived_numbering_consistent** (supplied face-edge table, everything else derived).  On a
+manifold mesh whose supplied face-edge table describes the faces and has the usual layout
+(`faceEdgeShaped`: a row per face, as wide as the face-node table, a non-negative entry per
+side, masked after them), the four `*_array` properties return tables `en`, `fe` (the supplied
+one), `ef`, `ff` that agree with one another **entry by entry**: the supplied face-edge table
+is exactly the table `make_face_edge_array` derives from the derived edge-node table, the
+edge-face and face-face tables are derived from it, and so every conclusion of
+`derived_tables_consistent` holds of the tables returned — not merely up to a renumbering. -/
+theorem derived_numbering_consistent (t : TopoIn) (faces : List (List Int)) (fe : Table)
+    (hfaces : t.faces = .ok faces) (hedge : t.hasEdgeDim = true) (hfv : t.fillValueErr = none)
+    (h1 : t.edgeNode = none) (h2 : t.faceEdge = some (.ok fe)) (h3 : t.edgeFace = none)
+    (h4 : t.faceFace = none) (hnf : t.nfaces = faces.length)
+    (hsize : t.edgeDimSize = none ∨ t.edgeDimSize = some (makeEdgeNode faces).length)
+    (hd : faceEdgeDescribes faces fe = true) (hshape : faceEdgeShaped t.width faces fe = true)
+    (hm : Manifold faces) :
+    ∃ (en : List Pair) (ef ff : Table),
+      isRenumbering en (makeEdgeNode faces) = true ∧
+      t.edgeNodeArrayN = .ok (en.map pairRow) ∧
+      t.faceEdgeArrayN = .ok fe ∧
+      t.edgeFaceArrayN = .ok ef ∧
+      t.faceFaceArrayN = .ok ff ∧
+      makeFaceEdge t.width en faces = .ok fe ∧
+      makeEdgeFace en.length (fe.map compress) = .ok ef ∧
+      makeFaceFace faces.length t.width ef = .ok ff ∧
+      (∀ i (hi : i < faces.length) c (hc : c < (facePairs faces[i]).length),
+          ∃ k : Nat, (fe[i]?.bind (·[c]?)) = some (some (k : Int)) ∧ ∃ hk : k < en.length,
+            normPair en[k] = normPair (facePairs faces[i])[c]) ∧
+      (∀ k (hk : k < en.length) i (hi : i < faces.length),
+          (i : Int) ∈ rowOf ef k ↔ ∃ p ∈ facePairs faces[i], normPair p = normPair en[k]) ∧
+      (∀ k, k < en.length → (rowOf ef k).length ≤ 2) ∧
+      (∀ i (hi : i < faces.length) j (hj : j < faces.length),
+          (j : Int) ∈ rowOf ff i ↔
+            i ≠ j ∧ ∃ p ∈ facePairs faces[i], ∃ q ∈ facePairs faces[j], normPair p = normPair q) ∧
+      (∀ i (_ : i < faces.length) j (_ : j < faces.length),
+          (j : Int) ∈ rowOf ff i ↔ (i : Int) ∈ rowOf ff j) := by
+  obtain ⟨en, htab, hren, hlen, _, hfollow⟩ := followFaceEdge_spec hd
+  obtain ⟨hnd, hcover, _⟩ := isRenumbering_cover hren
+  have hw := faceEdgeShaped_width hshape
+  obtain ⟨fe', ef, ff, hfe', hef, hff, c1, c2, c3, c4, c5⟩ :=
+    derived_tables_consistent t.width en faces hnd hcover hw hm
+  have hsame : makeFaceEdge t.width en faces = .ok fe := makeFaceEdge_eq_supplied hshape hnd hfollow
+  have : fe' = fe := by
+    rw [hfe'] at hsame
+    exact Except.ok.inj hsame
+  subst this
+  have henN : t.edgeNodeArrayN = .ok (en.map pairRow) := by
+    simp [TopoIn.edgeNodeArrayN, TopoIn.derivedEdgeTable, hedge, h1, hfaces, h2, htab]
+  have hfeN : t.faceEdgeArrayN = .ok fe' := by simp [TopoIn.faceEdgeArrayN, h2]
+  have hcount : t.edgeCountN = .ok en.length := by
+    rcases hsize with h | h
+    · simp [TopoIn.edgeCountN, hedge, h, hfaces, hlen]
+    · simp [TopoIn.edgeCountN, hedge, h, hlen]
+  have hefN : t.edgeFaceArrayN = .ok ef := by
+    simp [TopoIn.edgeFaceArrayN, h3, hcount, hfv, hfeN, hef]
+  have hffN : t.faceFaceArrayN = .ok ff := by
+    simp [TopoIn.faceFaceArrayN, h4, hfv, hefN, hnf, hff]
+  exact ⟨en, ef, ff, hren, henN, hfeN, hefN, hffN, hfe', hef, hff, c1, c2, c3, c4, c5⟩
+
+/-- **derived_numbering_consistent** (supplied edge-face table, everything else derived).  If
+the supplied edge-face table describes the sides, the `*_array` properties return tables `en`
+(derived, following the supplied numbering), `fe` (derived from `en`) and `ef` (the supplied
+one) that agree entry by entry: column `c` of face `i` in `fe` is the edge whose nodes are
+the `c`-th consecutive pair of `i`; edge `k` lists face `i` in the supplied table iff the
+node pair of `k` is a consecutive pair of `i`, iff `fe` lists `k` for face `i`.
+(`face_face_symm` and `face_face_iff_shared_edge` hold of the face-face table derived from
+any edge-face table, hence from the supplied one.) -/
+theorem derived_numbering_consistent_edge_face (t : TopoIn) (faces : List (List Int)) (ef : Table)
+    (hfaces : t.faces = .ok faces) (hedge : t.hasEdgeDim = true) (hfv : t.fillValueErr = none)
+    (h1 : t.edgeNode = none) (h2 : t.faceEdge = none) (h3 : t.edgeFace = some (.ok ef))
+    (hw : ∀ f ∈ faces, f.length ≤ t.width)
+    (hd : edgeFaceDescribes faces ef = true) :
+    ∃ (en : List Pair) (fe : Table),
+      isRenumbering en (makeEdgeNode faces) = true ∧
+      t.edgeNodeArrayN = .ok (en.map pairRow) ∧
+      t.faceEdgeArrayN = .ok fe ∧
+      t.edgeFaceArrayN = .ok ef ∧
+      makeFaceEdge t.width en faces = .ok fe ∧
+      en.length = ef.length ∧
+      (∀ i (hi : i < faces.length) c (hc : c < (facePairs faces[i]).length),
+          ∃ k : Nat, (fe[i]?.bind (·[c]?)) = some (some (k : Int)) ∧ ∃ hk : k < en.length,
+            normPair en[k] = normPair (facePairs faces[i])[c]) ∧
+      (∀ k (hk : k < en.length) i (hi : i < faces.length),
+          ((i : Int) ∈ rowOf ef k ↔ ∃ p ∈ facePairs faces[i], normPair p = normPair en[k]) ∧
+          ((i : Int) ∈ rowOf ef k ↔ (k : Int) ∈ rowOf fe i)) := by
+  obtain ⟨en, htab, hren, _, _, hlen, hrows⟩ := edge_node_follows_edge_face faces ef hd
+  obtain ⟨hnd, hcover, _⟩ := isRenumbering_cover hren
+  obtain ⟨fe, hfe, _, hspec⟩ := makeFaceEdge_spec t.width en faces hcover hw
+  have henN : t.edgeNodeArrayN = .ok (en.map pairRow) := by
+    simp [TopoIn.edgeNodeArrayN, TopoIn.derivedEdgeTable, hedge, h1, hfaces, h2, h3, htab]
+  have hfeN : t.faceEdgeArrayN = .ok fe := by
+    simp [TopoIn.faceEdgeArrayN, h2, hfv, henN, pairsOfTable_pairRow, hfaces, hfe]
+  have hefN : t.edgeFaceArrayN = .ok ef := by simp [TopoIn.edgeFaceArrayN, h3]
+  refine ⟨en, fe, hren, henN, hfeN, hefN, hfe, hlen, ?_, ?_⟩
+  · intro i hi c hc
+    obtain ⟨row, hrow, _, hin, _⟩ := hspec i hi
+    obtain ⟨k, hk, hlt, hn⟩ := hin c hc
+    exact ⟨k, by simp [hrow, hk], hlt, hn⟩
+  · intro k hk i hi
+    have h1 := (hrows k hk).2 i hi
+    refine ⟨h1, ?_⟩
+    rw [h1, mem_rowOf_faceEdge hnd hcover hw hfe hi]
+    constructor
+    · intro h; exact ⟨hk, h⟩
+    · rintro ⟨_, h⟩; exact h
+
 /-! ## the recorded deviations do violate the property (concrete witnesses) -/
 
 /-- Looking coordinate variables up in `data_vars` only (the unchanged code) does not find
@@ -420,20 +736,50 @@ theorem quirk_two_dim_guess_violates :
     (witnessTwoDim.validEdgeVar? {} "edge_node_connectivity").isSome := by
   decide
 
-/-- What the theorems above do *not* give, and the unchanged code does not do either: when a
-dataset supplies `face_edge` but no `edge_node` table, the derived edge-node table is numbered
-without looking at the supplied face-edge table, so the two need not agree.  Witness: one
-triangle whose supplied face-edge row is `[2, 0, 1]`; the first side of the face is the node
-pair (0, 1), but edge 2 of the derived edge-node table is (0, 2).  (`face_edge_spec` needs the
-face-edge table to be derived from the edge table in use; `supplied_used` returns the supplied
-one.)  Recorded as finding `ugrid-derived-edge-node-ignores-supplied-face-edge-numbering`. -/
-theorem supplied_face_edge_numbering_not_followed :
+/-- What the code did before repair `87d11e3` — the own numbering whatever the dataset
+supplies (the old `edgeNodeArray`) — violates the clause on one triangle whose supplied
+face-edge row is `[2, 0, 1]`: the first side of the face is the node pair (0, 1), but row 2 of
+the own edge table is (0, 2).  The table that follows the supplied numbering
+(`edgeNodeArrayN`, what the code does now) has (0, 1) in row 2.  Recorded as finding
+`ugrid-derived-edge-node-ignores-supplied-face-edge-numbering`. -/
+theorem own_numbering_violates_face_edge_clause :
     let t : TopoIn :=
       { faceNode := .ok [[some 0, some 1, some 2]], nfaces := 1, width := 3, hasEdgeDim := true,
         edgeDimSize := some 3, edgeNode := none, faceEdge := some (.ok [[some 2, some 0, some 1]]),
         edgeFace := none, faceFace := none }
-    t.faceEdgeArray = .ok [[some 2, some 0, some 1]] ∧
-    t.edgeNodeArray = .ok [[some 0, some 1], [some 1, some 2], [some 0, some 2]] := by
+    t.faceEdgeArrayN = .ok [[some 2, some 0, some 1]] ∧
+    -- old behaviour: edge 2 is (0, 2), not the first side (0, 1) of the face
+    t.edgeNodeArray = .ok [[some 0, some 1], [some 1, some 2], [some 0, some 2]] ∧
+    -- now: edge 2 is (0, 1), edge 0 is (1, 2), edge 1 is (0, 2)
+    t.edgeNodeArrayN = .ok [[some 1, some 2], [some 0, some 2], [some 0, some 1]] := by
+  decide
+
+/-- the same statement under its old name: the supplied face-edge numbering **is** followed now -/
+theorem supplied_face_edge_numbering_followed :
+    let t : TopoIn :=
+      { faceNode := .ok [[some 0, some 1, some 2]], nfaces := 1, width := 3, hasEdgeDim := true,
+        edgeDimSize := some 3, edgeNode := none, faceEdge := some (.ok [[some 2, some 0, some 1]]),
+        edgeFace := none, faceFace := none }
+    ∀ c : Fin 3, (t.edgeNodeArrayN.toOption.bind fun en =>
+        (([some 2, some 0, some 1] : List (Option Int))[c.val]?.bind id).bind fun k => en[k.toNat]?) =
+      ((facePairs [0, 1, 2])[c.val]?).map fun p => pairRow (normPair p) := by
+  decide
+
+/-- What the code did before repair `3f3bd50` violates the clause on two triangles on four
+nodes, faces (0,1,2) and (1,3,2), whose supplied edge-face table numbers the edges
+(1,2), (0,1), (0,2), (1,3), (2,3): row 0 lists both faces, but edge 0 of the own edge table
+is (0, 1), a side of face 0 only.  The table that follows the supplied numbering has the
+shared side (1, 2) in row 0.  Recorded as finding `clip-ignores-edge-face-numbering`. -/
+theorem own_numbering_violates_edge_face_clause :
+    let t : TopoIn :=
+      { faceNode := .ok [[some 0, some 1, some 2], [some 1, some 3, some 2]], nfaces := 2, width := 3,
+        hasEdgeDim := true, edgeDimSize := some 5, edgeNode := none, faceEdge := none,
+        edgeFace := some (.ok [[some 0, some 1], [some 0, none], [none, some 0], [some 1, none], [some 1, none]]),
+        faceFace := none }
+    t.edgeNodeArray = .ok [[some 0, some 1], [some 1, some 2], [some 0, some 2], [some 1, some 3], [some 2, some 3]] ∧
+    sideFaces [[0, 1, 2], [1, 3, 2]] (0, 1) = [0] ∧
+    t.edgeNodeArrayN = .ok [[some 1, some 2], [some 0, some 1], [some 0, some 2], [some 1, some 3], [some 2, some 3]] ∧
+    sideFaces [[0, 1, 2], [1, 3, 2]] (1, 2) = [0, 1] := by
   decide
 
 /-! ## the hypotheses are satisfiable (non-vacuity) -/
@@ -458,5 +804,49 @@ example : toIndexArray (encode { base := 1, spelling := .str, fill := .nan, tran
 
 /-- a non-manifold mesh (three triangles on one edge) is refused -/
 example : ¬ Manifold [[0, 1, 2], [1, 0, 3], [0, 1, 4]] := by decide
+
+/-- the minimal mesh of repair `87d11e3`: one triangle, face-edge row `[2, 0, 1]` supplied, no
+edge-node table — the table describes the faces, has the usual layout, and is followed -/
+example : faceEdgeDescribes [[0, 1, 2]] [[some 2, some 0, some 1]] = true ∧
+    faceEdgeShaped 3 [[0, 1, 2]] [[some 2, some 0, some 1]] = true ∧
+    makeEdgeNodeFollowingFaceEdge [[0, 1, 2]] [[some 2, some 0, some 1]]
+      = .ok [[some 1, some 2], [some 0, some 2], [some 0, some 1]] := by decide
+
+/-- the minimal mesh of repair `3f3bd50`: two triangles on the nodes (0,0), (1,0), (0,1), (1,1),
+faces (0,1,2) and (1,3,2), the edge-face rows of the edges (1,2), (0,1), (0,2), (1,3), (2,3)
+(a boundary edge written `[face, -]` or `[-, face]`) — the table describes the sides and is
+followed; the two boundary sides of each face are interchangeable and come in first-seen order -/
+example : edgeFaceDescribes [[0, 1, 2], [1, 3, 2]]
+      [[some 0, some 1], [some 0, none], [none, some 0], [some 1, none], [some 1, none]] = true ∧
+    makeEdgeNodeFollowingEdgeFace [[0, 1, 2], [1, 3, 2]]
+      [[some 0, some 1], [some 0, none], [none, some 0], [some 1, none], [some 1, none]]
+      = some [[some 1, some 2], [some 0, some 1], [some 0, some 2], [some 1, some 3], [some 2, some 3]] := by decide
+
+/-- fall-backs on the same meshes: a face-edge entry beyond the edges raises; one that numbers
+two sides alike leaves a masked row; an edge-face table listing face 0 alone three times (the
+mesh has two such sides) is not followed; one with a row too few leaves a masked row -/
+example : makeEdgeNodeFollowingFaceEdge [[0, 1, 2]] [[some 3, some 0, some 1]] = .error .index ∧
+    makeEdgeNodeFollowingFaceEdge [[0, 1, 2]] [[some 2, none, some 1]] = .error .index ∧
+    makeEdgeNodeFollowingFaceEdge [[0, 1, 2]] [[some 2, some 2, some 1]]
+      = .ok [[none, none], [some 0, some 2], [some 1, some 2]] ∧
+    faceEdgeDescribes [[0, 1, 2]] [[some 2, some 2, some 1]] = false ∧
+    makeEdgeNodeFollowingEdgeFace [[0, 1, 2], [1, 3, 2]]
+      [[some 0, some 1], [some 0, none], [none, some 0], [some 1, none], [some 0, none]] = none ∧
+    makeEdgeNodeFollowingEdgeFace [[0, 1, 2], [1, 3, 2]]
+      [[some 0, some 1], [some 0, none], [none, some 0], [some 1, none]]
+      = some [[some 1, some 2], [some 0, some 1], [some 0, some 2], [some 1, some 3], [none, none]] := by decide
+
+/-- precedence: with both tables supplied (and no edge-node table) the face-edge table decides:
+here the edge-face table alone would put (0, 1) before (0, 2) among the boundary sides of
+face 0, the face-edge table says otherwise -/
+example :
+    let t : TopoIn :=
+      { faceNode := .ok [[some 0, some 1, some 2], [some 1, some 3, some 2]], nfaces := 2, width := 3,
+        hasEdgeDim := true, edgeDimSize := some 5, edgeNode := none,
+        faceEdge := some (.ok [[some 2, some 0, some 1], [some 3, some 4, some 0]]),
+        edgeFace := some (.ok [[some 0, some 1], [some 0, none], [none, some 0], [some 1, none], [some 1, none]]),
+        faceFace := none }
+    t.edgeNodeArrayN = .ok [[some 1, some 2], [some 0, some 2], [some 0, some 1], [some 1, some 3], [some 2, some 3]] := by
+  decide
 
 end Ems.C10
